@@ -57,6 +57,7 @@ func c07SigTable(evJSON []byte, auths [][]byte) []byte {
 		var ae struct {
 			Type    string `json:"type"`
 			Content struct {
+				PublicKey  string `json:"public_key"`
 				PublicKeys []struct {
 					PublicKey string `json:"public_key"`
 				} `json:"public_keys"`
@@ -67,6 +68,9 @@ func c07SigTable(evJSON []byte, auths [][]byte) []byte {
 		}
 		for _, k := range ae.Content.PublicKeys {
 			keyTexts[k.PublicKey] = true
+		}
+		if ae.Content.PublicKey != "" {
+			keyTexts[ae.Content.PublicKey] = true
 		}
 	}
 	texts := make([]string, 0, len(keyTexts))
@@ -448,7 +452,7 @@ func (c *Ctx) c07Run(ver string, ev []byte, auths [][]byte, desc string) []byte 
 	return c.Run("c07.allowed", c07Args(ver, ev, auths), "C07.allowed", c07PropOp, desc)
 }
 
-var c07PropOp = ""
+var c07PropOp = "C07.prop.allowed"
 
 func c07GenMembership(c *Ctx) {
 	// bounded-exhaustive core: version x self/other x sender membership x target membership x
@@ -1168,6 +1172,24 @@ func c07GenMalformed(c *Ctx) {
 					}
 					c.Count("malformed/" + what)
 					c.c07Run(ver, ev, c07Shuffle(c.Rng, auths), fmt.Sprintf("malformed %s evt=%s bad=%v", what, evt, bad))
+				}
+			}
+		}
+		// pseudo-ID mapping: the federation check uses the mapped user ID's domain, not the sender's
+		for _, mapped := range []string{"@alice:hs1", "@alice:hs2", "nope", ""} {
+			for _, sender := range []string{"@alice:hs1", "@alice:hs2"} {
+				for _, fed := range []interface{}{nil, false} {
+					n++
+					r := c07NewRoom(ver, fmt.Sprintf("y%d", n))
+					ce := J{}
+					if fed != nil {
+						ce["m.federate"] = fed
+					}
+					auths := [][]byte{r.create("@creator:hs1", ce), r.state("m.room.join_rules", "@creator:hs1", "", J{"join_rule": "public"})}
+					content := J{"membership": "join", "mxid_mapping": J{"user_id": mapped, "user_room_key": sender}}
+					ev := r.event(r.eventID("e"), "m.room.member", sender, sp(sender), content, []string{r.eventID("p")}, nil)
+					c.Count("malformed/mxid-mapping")
+					c.c07Run(ver, ev, auths, fmt.Sprintf("mxid mapping mapped=%q sender=%q fed=%v", mapped, sender, fed))
 				}
 			}
 		}
